@@ -196,10 +196,24 @@ def run(pid, repo='/repo'):
         c = x + b1
         return None if sat(c)[1:] == sat(b1) else '%r vs %r' % (sat(c)[1:], sat(b1))
     case('D32 seam merge with an object that starts again later', {'C05': 'iadd_right'}, d32)
+    # D33
+    case('D33 replace with an escape sequence in the replacement skips matches', {'C11': 'replace_settings', 'C10': 'replace_text'},
+         lambda: None if A('bcbc').replace('c', '\x1b[4mZ').base_str == 'bZbZ' else A('bcbc').replace('c', '\x1b[4mZ').base_str)
     # D26 — known finding: byte-level idempotence of simplify() with verbatim multi-code settings
-    def d26():
-        s = A('ab'); s.apply_formatting('blue', 0, 1); s.apply_formatting('[1;31', 1, 2)
-        s.simplify(); r1 = str(s); s.simplify(); r2 = str(s)
-        return None if r1 == r2 else 'nongroup=True: after one simplify %r, after two %r (first rendering contained \\x1b[0;1;31m)' % (r1, r2)
-    case('D26 simplify not byte-idempotent', {'C03': 'simplify_idem'}, d26)
+    def d26(build):
+        def f():
+            s = build()
+            s.simplify(); r1 = str(s); s.simplify(); r2 = str(s); s.simplify(); r3 = str(s)
+            if r1 == r2:
+                return None
+            same = T.run(r1, {})[0] == T.run(r2, {})[0]
+            return 'display_same=%r converges=%r: after one simplify %r, after two %r' % (same, r2 == r3, r1, r2)
+        return f
+    def w1():
+        s = A('ab'); s.apply_formatting('blue', 0, 1); s.apply_formatting('[1;31', 1, 2); return s
+    def w2():
+        s = A('abc'); s.apply_formatting(['1', '31', '4', '3'], 0, 1); s.apply_formatting(['32', '1'], 1, 2)
+        s.apply_formatting(['33', '2'], 2, 3); return s
+    case('D26 simplify not byte-idempotent (verbatim multi-code setting)', {'C03': 'simplify_idem'}, d26(w1))
+    case('D26 simplify not byte-idempotent (parsable settings, reset form chosen by the optimiser)', {'C03': 'simplify_idem'}, d26(w2))
     return dict(viol=out, ran=ran)
